@@ -40,10 +40,13 @@ def run_cases(chk, plan, label, crlf_ok=True):
         batch.append({"id": cid, "files": {r["name"]: r["text"]}, "diff": None, "args": ["list"], "terminal": True})
         meta[cid] = (case, ext, variant, r, crlf, mb, bare)
     results = vlib.run_bwexec(batch, trace_dir=tdir)
-    blocks_by_case = {}
+    blocks_by_case, all_events = {}, {}
     for fn in os.listdir(tdir):
         for cid, evs in runtrace.split_cases(runtrace.read_events(os.path.join(tdir, fn))).items():
             blocks_by_case[cid] = [e for e in evs if e["ev"] == "block"]
+            all_events[cid] = evs
+    # impl -> spec: the recorded push / pop events of the parses against Pairing.tla
+    runtrace.validate_pairing(chk, all_events, limit=3000)
     for cid, (case, ext, variant, r, crlf, mb, bare) in meta.items():
         res = results[cid]
         conc = next(b for b in batch if b["id"] == cid) if len(batch) < 2000 else {"id": cid, "files": {r["name"]: r["text"]}, "args": ["list"], "terminal": True, "diff": None}
